@@ -116,6 +116,14 @@ func (group *Group) OnAvPacketFromPsPubSession(pkt *base.AvPacket) {
 func (group *Group) OnPatPmt(b []byte) {
 	group.patpmt = b
 
+	// 已经在观看的httpts session（比如跨越了前后两次推流的session）需要收到新的pat pmt，否则前后两次推流的编码格式不同时，
+	// 它手里的pmt和后续收到的数据对不上。新加入的session在第一次转发数据时发送，见 feedTsPackets
+	for session := range group.httptsSubSessionSet {
+		if !session.IsFresh {
+			session.Write(b)
+		}
+	}
+
 	if group.hlsMuxer != nil {
 		group.hlsMuxer.FeedPatPmt(b)
 	}
